@@ -1,5 +1,6 @@
 import AC.DecompProof
 import AC.Guards
+import AC.DecompTie
 /-! # C09 — dictionary decompositions represent the target exactly and without overlap
 
 Model: `P.Bits.decompose` (the four `Decompose` methods of alg/dict/dict.go followed by
@@ -126,5 +127,18 @@ theorem C09_nonempty (m : Method) (x K T : Nat) (hx : 1 ≤ x) (hK : 1 ≤ K) : 
 
 /-- non-vacuity: a hybrid decomposition with a long run and a window -/
 example : decompose .hybrid 0b1111101 2 0 = [⟨1, 0⟩, ⟨31, 2⟩] := by decide
+
+/-! ## `FixedWindow.Decompose` as TRANSLATED from dict.go
+
+`AC/Gen/ProgramFns.lean` is regenerated from alg/dict/dict.go on every run (harness/cmd/extract/gotr.go);
+`AC/DecompTie.lean` proves the translated function equal to the model (`fixedWindow_tie`; the loop
+`for h > 0 {…}` on a fuel counter that is never exhausted, `Sum.SortByExponent` as the primitive sort). -/
+
+/-- the translated `FixedWindow{K}.Decompose(x)`, `x ≥ 1`, `K ≥ 1`: never panics, and its terms are exact
+    (they sum to `x`), pairwise non-overlapping in increasing exponent order, with `0 < d < 2^K` -/
+theorem C09_src_fixed (x K : Nat) (hx : 1 ≤ x) (hK : 1 ≤ K) :
+    ∃ s : List Term, AC.Gen.Program.dictFixedWindowDecompose K (x : Int) = some (AC.DecompTie.toGTs s) ∧
+      value s = x ∧ s.Pairwise Below ∧ ∀ t ∈ s, 0 < t.d ∧ t.d < 2 ^ K :=
+  ⟨_, AC.DecompTie.fixedWindow_tie x K hx hK, C09_fixed x K 0 hK⟩
 
 end AC.Props.C09
